@@ -393,6 +393,7 @@ Fixpoint evalE (t : node) (e : env) : result :=
                 end
             end
         end
+    | HIf, _ | HLet _, _ | HStreamMap _, _ | HStreamFilter _, _ | HStreamFold _ _, _ => Val VJunk   (* wrong arity *)
     | _, _ =>
         match (fix go (cs : list node) : option (list value) :=
                  match cs with
@@ -443,6 +444,7 @@ Fixpoint errsE (t : node) (e : env) (ee : benv) : bool :=
                end) l (eval z e)
         | _ => false
         end
+    | HIf, _ | HLet _, _ | HStreamMap _, _ | HStreamFilter _, _ | HStreamFold _ _, _ => false   (* wrong arity *)
     | _, _ => existsb (fun c => errsE c e ee) cs || op_fails h (map (fun c => eval c e) cs)
     end
   end.
